@@ -29,7 +29,7 @@ PROPERTY = "C07"
 LEVEL = "exploration"
 USES_JAX = True
 CLEAR_EVERY = 40
-BUDGET_S = {"quick": 600, "thorough": 2400}
+BUDGET_S = {"quick": 600, "thorough": 3600}
 RULE = (
     "full Cartesian products of per-step alphabets (termination flag x reward/value/observation "
     "variant) for every member of a context (single sequence, parallel environments, episodes, batch "
@@ -113,7 +113,7 @@ def items(tier, seed):
     for j, (g, l) in enumerate(gl_a):
         for N, T in itertools.product([1, 2, 3], [1, 2, 3]):
             if N == 3 and T == 3:
-                if q or j > 0:
+                if q or (g, l) != (0.99, 0.95):
                     continue
                 for f in range(3):
                     for c in range(4):
